@@ -258,6 +258,11 @@ func (resp *Resp) next() error {
 		}
 	}
 	hosts = append(hosts, reqHost)
+	if req.DirectURL != nil && slices.ContainsFunc(hosts, func(h *clientHost) bool { return h.config.Hostname == req.DirectURL.Host }) {
+		// a direct url to one of the hosts (link to the next page) is only requested through that host,
+		// other hosts would send the identical request to it without its credentials, throttle, or backoff
+		hosts = slices.DeleteFunc(hosts, func(h *clientHost) bool { return h.config.Hostname != req.DirectURL.Host })
+	}
 	sort.Slice(hosts, sortHostsCmp(hosts, reqHost.config.Name))
 	// loop over requests to mirrors and retries
 	curHost := 0
